@@ -515,9 +515,24 @@ def level_obligations(chk):
         path.assume(Q([Val, BoolS], lambda u, b: n_hints(u, b) >= 0, trigger=n_hints, name="hints-nonneg"))
         return [SV(t)], {}, {"t": t}
     names = ["yields-the-generic-arguments-then-the-field-hints", "arguments-are-unnamed", "hints-are-exhaustive-exactly-for-structured-types"]
+    # the field hints of a class are not a pure function of the class: while a name in its annotations is unbound,
+    # get_type_hints answers with unevaluated references - an answer that must not outlive that moment, so the members
+    # are read at the time of the call, never through a memoised alias (args() of an annotation is pure and may be)
+    fresh = "member-annotations-are-read-at-the-time-of-the-call-not-through-a-cache"
+    memo = {"cur": []}
+    I.hooks["memo_call"] = lambda I, path, f, args, kwargs: memo["cur"].append(getattr(f, "qualname", None) or getattr(f, "name", "?"))
+    mk0 = mk
+
+    def mk(I, path):
+        memo["cur"] = []
+        made = mk0(I, path)
+        made[2]["memo"] = memo["cur"]
+        return made
     results = I.run_function(func, mk)
     for pi, (path, out, obls, writes, cur) in enumerate(results):
         pid, hy, t = f"p{pi}", path.hyps, cur["t"]
+        hinted = [m for m in cur["memo"] if "hint" in str(m)]
+        chk.add(Ob(func, fresh, pid, hy, z3.BoolVal(not hinted), {"memoised_on_the_way": list(cur["memo"])}))
         if out.kind != "ret" or not isinstance(out.value, SSeq):
             for nm in names:
                 chk.add(Ob(func, nm, pid, hy, z3.BoolVal(False), {"outcome": out.kind, "why": str(out.value)}))
